@@ -1,5 +1,6 @@
 """C20 -- GSER output is well-formed and determines the value (DESIGN.md section 4 C20)."""
 import ast
+import re
 
 from ..model import AnalysisError, Model, walk_no_nested, norm_stmt, names_in
 from ..callgraph import CallGraph
@@ -340,6 +341,52 @@ def check(ctx):
     if not ok:
         ctx.violation('C20.R6', F, ct, Model.qual(ct), 'top-level "name Type ::= value" wrapper is gone', stmt='wrapper')
 
+    # ---- R7: the text determines the value.  A value with components (BIT STRING = (octets, number of bits), CHOICE = (name, value)) is emitted so that every
+    #      component flows into the returned text on every path -- unless the conditions of the path pin it to a constant.  A component that only steers the
+    #      choice of a form (say `number_of_bits % 4 == 0`) and is then left out cannot be recovered from the text: two values share one text.
+    ctx.rule('C20.R7', 'every component of a composite value flows into the emitted text on every path (or is fixed by the path conditions)')
+    n7 = 0
+    for c in model.mod(F).classes.values():
+        f7 = c.methods.get('encode')
+        if f7 is None or c.name in ('CompiledType', 'Compiler'):
+            continue
+        dp = flow.param_names(f7)
+        if len(dp) < 2:
+            continue
+        dp = dp[1]
+        comps = sorted({n.slice.value for n in walk_no_nested(f7) if isinstance(n, ast.Subscript) and isinstance(n.value, ast.Name) and n.value.id == dp
+                        and isinstance(n.slice, ast.Constant) and isinstance(n.slice.value, int)})
+        if len(comps) < 2:
+            continue
+        ps7 = sem.paths(f7, resolver=sem.class_resolver(c))
+        if ps7 is None:
+            ctx.instance('C20.R7', Model.qual(f7), 'undecided', 'too many paths', nontrivial=False, node=f7, file=F)
+            continue
+        for p in ps7:
+            if p.outcome[0] != 'return' or len(p.outcome) < 4 or p.outcome[3] is None:
+                continue
+            n7 += 1
+            text = p.outcome[1]
+            # what the text is built from: the returned expression and every call made on the path whose result can reach it (children encoders)
+            missing = []
+            for k in comps:
+                ref = '%s[%d]' % (dp, k)
+                in_text = ref in text or any(ev[0] == 'call' and ref in ev[1] for ev in p.events)      # part of the text, or handed to a call made on the path (a child encoder, a formatter)
+                pinned = any(c_[1] and re.match(r'^%s( -\d+)? == 0$' % re.escape(ref), c_[0]) for c_ in p.conds)
+                if not in_text and not pinned:
+                    missing.append(ref)
+            # the empty value: a component pinned to zero (a bit count of 0) makes the other components irrelevant, and the text is a constant
+            if missing and isinstance(p.outcome[3], ast.Constant) and any(c_[1] and re.match(r'^%s\[\d\] == 0$' % re.escape(dp), c_[0]) for c_ in p.conds):
+                missing = []
+            ctx.instance('C20.R7', '%s returns %s' % (Model.qual(f7), text[:70]), 'ok' if not missing else 'VIOLATION', node=p.outcome[2] if len(p.outcome) > 2 and hasattr(p.outcome[2], 'lineno') else f7, file=F)
+            if missing:
+                ctx.violation('C20.R7', F, p.outcome[2] if len(p.outcome) > 2 and hasattr(p.outcome[2], 'lineno') else f7, Model.qual(f7),
+                              'on the path [%s] the emitted text `%s` does not depend on %s (it is neither part of the text nor fixed by the conditions): values that differ only in '
+                              'that component produce the same GSER text' % ('; '.join(('' if c_[1] else 'not ') + c_[0] for c_ in p.conds)[:200], text[:90], ', '.join(missing)),
+                              stmt='text independent of %s' % ', '.join(missing))
+    if n7 < 3:
+        raise AnalysisError('C20.R7 examined only %d returning paths of composite encoders' % n7)
+
 
 MUTANTS = [
     dict(name='presence decided by data.get() is None', file=F, quick=True,
@@ -373,3 +420,13 @@ MUTANTS = [
         elif data == 0.0:""", new="""        elif data == 0.0:""", expect='C20.R3'),
 ]
 REFACTORS = []
+
+MUTANTS.append(dict(name='long BIT STRING emitted as hstring of all octets, bit count left out', file=F,
+                    old="""        if data[1] == 0:
+            return "''B"
+""", new="""        if data[1] == 0:
+            return "''B"
+
+        if data[1] > 64 and data[1] % 4 == 0:
+            return "'{}'H".format(format_bytes(data[0])).upper()
+""", expect='C20.R7'))
